@@ -948,18 +948,36 @@ func (p *Process) onLivenessCheckEnd(_, isFatal bool, err string) {
 }
 
 func (p *Process) onReadinessCheckEnd(isOk, isFatal bool, err string) {
-	verifTrace(p, "Probe", "kind", "ready", "ok", isOk, "fatal", isFatal)
+	health := types.ProcessHealthNotReady
+	if isOk && !isFatal {
+		health = types.ProcessHealthReady
+	}
+	// a result that is still in flight when the process is stopped (or has ended) says nothing
+	// about the process any more: its readiness has been forgotten and stays forgotten
+	applied := p.setHealthIfRunning(health)
+	verifTrace(p, "Probe", "kind", "ready", "ok", isOk, "fatal", isFatal, "applied", applied)
 	if isFatal {
-		p.procState.Health = types.ProcessHealthNotReady
 		log.Info().Msgf("%s is not ready anymore - %s", p.getName(), err)
 		p.logBuffer.Write("Error: readiness check fail - " + err)
 		_ = p.internalStop()
-	} else if isOk {
-		p.procState.Health = types.ProcessHealthReady
+	} else if isOk && applied {
 		p.readyCancelFn()
-	} else {
-		p.procState.Health = types.ProcessHealthNotReady
 	}
+}
+
+// setHealthIfRunning records a probe result unless the process is no longer running
+func (p *Process) setHealthIfRunning(health string) bool {
+	p.stateMtx.Lock()
+	defer p.stateMtx.Unlock()
+	if p.ended {
+		return false
+	}
+	switch p.procState.Status {
+	case types.ProcessStateRunning, types.ProcessStateLaunched, types.ProcessStateLaunching:
+		p.procState.Health = health
+		return true
+	}
+	return false
 }
 
 func (p *Process) validateProcess() error {
